@@ -10,6 +10,9 @@ Section Stack.
   Variables CHUNK TAG BLOCK LIMIT : N.
   Hypothesis HCHUNK : 0 < CHUNK.
   Hypothesis HTAG : 0 < TAG.
+  (* CHUNK_SIZE + TAG_LENGTH <= 2^31: with the chunk bound Hchunks it puts every position of the encrypted stream
+     inside the u64 / i64 ranges of the encryption reader's seek (EncLayerProofs.ranges_of_sizes) *)
+  Hypothesis Hsz : CHUNK + TAG <= 2 ^ 31.
   Hypothesis HB : 0 < BLOCK.
   Hypothesis HB32 : BLOCK < 2 ^ 32.
   Variable ks : N -> N -> N.
@@ -48,8 +51,13 @@ Section Stack.
   Lemma raw_refines : Refines RawS encwire Rraw0.
   Proof. apply raw_reader_refines; assumption. Qed.
 
+  Lemma enc_ranges : (len compwire / CHUNK + 1) * CTS CHUNK TAG <= 2 ^ 64 - 1 /\ len compwire < 2 ^ 63.
+  Proof. exact (ranges_of_sizes CHUNK TAG (len compwire) HCHUNK Hsz Hchunks). Qed.
+
   Lemma enc_refines : Refines EncS compwire Renc0.
-  Proof. apply enc_reader_refines; try assumption. exact raw_refines. Qed.
+  Proof.
+    apply enc_reader_refines; try assumption; [exact raw_refines | exact (proj1 enc_ranges) | exact (proj2 enc_ranges)].
+  Qed.
 
   Theorem stack_refines : Refines CompS plain Rcomp0.
   Proof.
@@ -76,7 +84,8 @@ Section Stack.
     set (e0 := @mkE RawS r [] 0 0).
     assert (Hsk : sk EncS e0 (FromCur 0) = (e0, Ok 0)).
     { cbn [EncS EncReader sk]. unfold eseek. cbn [Z.eqb e_chunk e_cpos e0]. rewrite N.mul_0_l. reflexivity. }
-    destruct (enc_open_spec CHUNK TAG HCHUNK HTAG ks tagc Htagc RawS compwire Rraw0 raw_refines Hchunks r 0 HRr)
+    destruct (enc_open_spec CHUNK TAG HCHUNK HTAG ks tagc Htagc RawS compwire Rraw0 raw_refines Hchunks
+                (proj1 enc_ranges) (proj2 enc_ranges) r 0 HRr)
       as (e1 & Heo & HRe).
     assert (Hini : enc_initialize e0 = (e1, Ok tt)).
     { unfold enc_initialize. unfold enc_open in Heo. fold e0 in Heo. rewrite Heo. reflexivity. }
